@@ -112,6 +112,8 @@ class Worker:
             if self.rc == 0 and any(r.get("t") == "stats" for r in recs):
                 break
             idx = self.progress()
+            if idx == -2 and any(r.get("t") == "stats" for r in recs) and any(r.get("t") == "violation" for r in recs):
+                break   # finished; the non-zero exit status only repeats reports the monitor already turned into violations
             self.crashes.append((idx, self.rc, self.stderr_text()))
             if idx is None or idx < 0 or attempt == max_restarts:
                 self.gave_up = True
@@ -198,7 +200,8 @@ def classify_crash(text, rc):
         kind = "valgrind_" + re.sub(r"[^a-z]+", "_", mv.group(1).lower()).strip("_")[:40]
     frame = "noframe"
     for m in list(re.finditer(r"==\d+==\s+(?:at|by) 0x[0-9A-Fa-f]+: ([^\n]+)", text)) + \
-            list(re.finditer(r"#\d+ 0x[0-9a-f]+ in ([^\n]+)", text)):
+            list(re.finditer(r"#\d+ 0x[0-9a-f]+ in ([^\n]+)", text)) + \
+            list(re.finditer(r"#\d+ ((?!0x)[A-Za-z_][^\n]+)", text)):
         fn = _function_name(m.group(1))
         if fn.startswith("Clipper2Lib::"):
             frame = fn[len("Clipper2Lib::"):]
